@@ -27,6 +27,7 @@ EXTRA = {
     "deldel": {1: [("delete", "f", "c1"), ("put", "f", None, "c2")], 2: [("delete", "f", "c1"), ("get", "f")]},
     "samecontent": {1: [("put", "f", "c1", "c2"), ("get", "f")], 2: [("put", "f", "c1", "c2"), ("list",)]},
 }
+CASRACE3 = {1: [("put", "f", "c1", "c2")], 2: [("put", "f", "c2", "c3")], 3: [("delete", "f", "c2"), ("get", "f")]}
 LIST_RACE = {1: [("put", "f", "c1", "c2"), ("put", "g", "c1", "c3")], 2: [("list",)]}
 
 
@@ -65,6 +66,7 @@ def execute(job):
     n = max(program)
     r = hc.HubRun(CFG["copia"], CFG["shim"], root, n, d, CONTENTS)
     r.hashes = CFG["hashes"]
+    r.lock_open_visible = job.get("policy") in ("lock_stress", "lock_identity")
     ops = {}
     for sid in range(1, n + 1):
         r.queue_request(sid, {"kind": "hello"})
@@ -110,6 +112,55 @@ def execute(job):
             for c in cands:
                 if c.sid == order[step]:
                     return c
+        if job.get("policy") == "lock_identity":
+            # adversarial corpus for the lock's identity (a flock is held on an inode, not on a name):
+            #  1 runs until it holds the lock; 2 runs until it has opened the lock file and waits for it; 1 finishes;
+            #  2 enters its critical section and reads the live hash; 3 then starts from scratch and tries to enter too
+            by = {c.sid: c for c in cands}
+            ph = state["phase"]
+            if ph == 0:
+                if r.lock_holder == 1:
+                    state["phase"] = ph = 1
+                elif 1 in by:
+                    return by[1]
+            if ph == 1:
+                s2 = r.servers[1]
+                if getattr(s2, "lock_wait", False) or not s2.alive:
+                    state["phase"] = ph = 2
+                elif 2 in by:
+                    return by[2]
+            if ph == 2:
+                if r.lock_holder != 1:
+                    state["phase"] = ph = 3
+                elif 1 in by:
+                    return by[1]
+            if ph == 3:
+                s2 = r.servers[1]
+                if r.lock_holder == 2 and r.trace and r.trace[-1]["sid"] == 2 and r.trace[-1]["call"] == "stat":
+                    state["phase"] = ph = 4
+                elif 2 in by:
+                    return by[2]
+            if ph == 4:
+                s3 = r.servers[2] if len(r.servers) > 2 else None
+                if s3 is None or getattr(s3, "lock_wait", False) or (r.trace and r.trace[-1]["sid"] == 3 and r.trace[-1]["call"] == "stat"):
+                    state["phase"] = ph = 5
+                elif 3 in by:
+                    return by[3]
+            if 2 in by:
+                return by[2]
+            return cands[0]
+        if job.get("policy") == "lock_stress":
+            # the lock is the suspect: while some server is inside its critical section, push the OTHERS towards and
+            # through their flock (under a working lock their probes fail and cost nothing), alternating between them
+            holder = r.lock_holder
+            if holder is not None:
+                others = [c for c in cands if c.sid != holder]
+                # a server about to open the lock file is held back half of the time, so that it binds the name later
+                late = [c for c in others if not (c.pending["call"] == "open" and c.pending["path"].endswith("commit.lock"))]
+                pool = late if late and rng.random() < 0.5 else others
+                if pool and rng.random() < 0.85:
+                    return rng.choice(pool)
+            return rng.choice(cands)
         if job.get("policy") == "random":
             return rng.choice(cands)
         return cands[0]
